@@ -640,7 +640,7 @@ class Models(object):
     def str_split(self, s, sep, maxsplit=-1):
         if sep is None and not isinstance(maxsplit, Sym):
             return self.str_split_ws(s, maxsplit)
-        if isinstance(sep, SStr) or sep is None or maxsplit != -1:
+        if isinstance(sep, SStr) or sep is None or isinstance(maxsplit, Sym) or not isinstance(maxsplit, int):
             raise Undecided("split with symbolic / default separator")
         if not self._barrier_ok(s, sep):
             s = self._refine_for_split(s, sep)
@@ -654,6 +654,14 @@ class Models(object):
                     pieces.append([Lit(c)])
             else:
                 pieces[-1].append(a)
+        if maxsplit >= 0 and len(pieces) > maxsplit + 1:
+            # the separator occurs only in literals (barrier rule), so the occurrences are known: cut at the first
+            # `maxsplit` of them and leave the rest of the text in the last piece
+            tail = list(pieces[maxsplit])
+            for extra in pieces[maxsplit + 1:]:
+                tail.append(Lit(sep))
+                tail.extend(extra)
+            pieces = pieces[:maxsplit] + [tail]
         return [mkstr(SStr(p)) for p in pieces]
 
     def _refine_for_split(self, s, sep, budget=3):
@@ -720,6 +728,14 @@ class Models(object):
             return self.str_endswith(s, args[0])
         if name == "split":
             return self.str_split(SStr.of(s), *args, **kwargs)
+        if name == "partition" and len(args) == 1 and isinstance(args[0], str) and args[0]:
+            # s.partition(sep) == (head, sep, tail) of the first occurrence, (s, '', '') if there is none
+            parts = self.str_split(SStr.of(s), args[0], 1)
+            if isinstance(parts, list) and len(parts) == 2:
+                return (parts[0], args[0], parts[1])
+            if isinstance(parts, list) and len(parts) == 1:
+                return (parts[0], "", "")
+            raise Undecided("str.partition on a string with holes")
         if name == "count":
             if isinstance(s, str):
                 raise Undecided("count with symbolic needle")
@@ -940,6 +956,13 @@ class Models(object):
             return False
         if isinstance(a, Val) and a.nonempty and not _allowed_fn(a)(prefix[0], "first"):
             return False
+        if isinstance(a, Pct) and a.u.nonempty:
+            if not _allowed_fn(a)(prefix[0], "first"):
+                return False
+            if len(prefix) == 1 and prefix not in reserved_chars() and prefix != "%":
+                # a character the quoter leaves alone: pct(u) starts with it  <=>  u does
+                return SBool(z3.PrefixOf(z3.StringVal(prefix), a.u.v))
+            raise Undecided("startswith(%r) on an escaped hole" % (prefix,))
         self.used("z3-strings")
         return SBool(z3.PrefixOf(z3.StringVal(prefix), s.z3()))
 
@@ -962,6 +985,13 @@ class Models(object):
             return False
         if isinstance(a, Val) and a.nonempty and not _allowed_fn(a)(suffix[-1], "last"):
             return False
+        if isinstance(a, Pct) and a.u.nonempty:
+            if not _allowed_fn(a)(suffix[-1], "last"):
+                return False
+            if len(suffix) == 1 and suffix not in reserved_chars() and suffix != "%" and suffix not in "0123456789abcdefABCDEF":
+                # a character that is neither escaped nor part of an escape: pct(u) ends with it  <=>  u does
+                return SBool(z3.SuffixOf(z3.StringVal(suffix), a.u.v))
+            raise Undecided("endswith(%r) on an escaped hole" % (suffix,))
         self.used("z3-strings")
         return SBool(z3.SuffixOf(z3.StringVal(suffix), s.z3()))
 
@@ -1737,7 +1767,7 @@ class Models(object):
 _WS = "".join(chr(c) for c in range(0x110000) if chr(c).isspace()) if False else " \t\n\r\x0b\x0c\x1c\x1d\x1e\x1f\x85\xa0\u1680\u2000\u2001\u2002\u2003\u2004\u2005\u2006\u2007\u2008\u2009\u200a\u2028\u2029\u202f\u205f\u3000"
 
 _STR_METHODS = {"format", "join", "startswith", "endswith", "split", "count", "rstrip", "strip", "lstrip",
-                "replace", "lower", "upper", "encode", "splitlines", "find", "index"}
+                "replace", "lower", "upper", "encode", "splitlines", "find", "index", "partition"}
 
 _OPSYM = {ast.Lt: "<", ast.LtE: "<=", ast.Gt: ">", ast.GtE: ">=", ast.Eq: "==", ast.NotEq: "!="}
 
